@@ -859,7 +859,6 @@ func reachableFrom(p *Prog, from, to string, depth int) bool {
 	return walk(from, depth)
 }
 
-
 // checkChunkNumbering is shared by several properties (the clause is necessary for each of them).
 func checkChunkNumbering(c *Ctx) {
 	p := c.P
@@ -958,7 +957,6 @@ func checkChunkNumbering(c *Ctx) {
 	}
 	_ = p
 }
-
 
 // checkIndexTime is shared by C13 and C14 (the delete cut-off must be the time the scan started).
 func checkIndexTime(c *Ctx) {
